@@ -10,6 +10,11 @@
 (*                 rounding: the verdict of such a site is not determined  *)
 (*         "small" |z||w| < 1/4 (tiny magnitudes outside the grid):        *)
 (*                 solvable by lemma SmallProductSolvable                  *)
+(*         "near"  a tangent grid point perturbed so that the EXACT        *)
+(*                 discriminant of the documented z, w of the realised     *)
+(*                 float inputs has relative size 1e-9 .. 1e-12 (orders    *)
+(*                 above rounding): its class is the exact sign, dpos      *)
+(*                 (by DiscriminantDecides D > 0 decides solvability)      *)
 (*   e1    |p + z s - w| in quanta (quantum = T.quantum of the scale)      *)
 (*   e2    |s - |p|^2|   in quanta                                         *)
 (*   br    2|z|^2 s <= 2c+1 (with the same tolerance)                      *)
@@ -36,6 +41,7 @@ E(n) == T.ev[n]
 
 OnGrid(n) == E(n).kind \in {"grid", "free"}
 SolvableAt(n) == \/ E(n).kind = "small"
+                 \/ E(n).kind = "near" /\ E(n).dpos
                  \/ OnGrid(n) /\ Solvable(E(n).zr, E(n).zi, E(n).wr, E(n).wi)
 VerdictFree(n) == E(n).kind = "free"
 
